@@ -3,14 +3,17 @@
 # semantics) plus this cross-product family: every ordered pair of documented constructs nested, with a symbolic integer routed
 # across the boundary, in lock-step with the complete reference semantics (ref/), itself validated on the repository's 336 scripts.
 from . import common
-from families import compose
+from families import compose, randprog
 
 def run(tier, seed):
     c = common.Check('C01', tier, seed, 'symbolic execution of main (MIR) on compositions of every ordered pair of documented constructs with a symbolic integer routed across the boundary, decided by z3; lock-step complete reference semantics (independent front end + evaluator); native replay')
     c.functions |= {'main and everything reachable from it (src/lexer, generated parser, src/eval, src/builtins) (MIR)'}
     ts = compose.templates(tier, seed)
-    c.bounds = {'constructs': sorted(compose.CONSTRUCTS), 'nesting': 'all 14 single constructs; %s' % ('70 sampled ordered pairs (VERIF_SEED)' if tier == 'quick' else 'all 196 ordered pairs and 260 sampled triples'), 'value': 'one symbolic i64 routed inwards and outwards (all of i64)', 'templates': len(ts)}
+    c.bounds = {'constructs': sorted(compose.CONSTRUCTS), 'nesting': 'all 14 single constructs; %s' % ('42 sampled ordered pairs (VERIF_SEED)' if tier == 'quick' else 'all 196 ordered pairs and 260 sampled triples'), 'value': 'one symbolic i64 routed inwards and outwards (all of i64)', 'templates': len(ts)}
     c.outside = ['nesting depth beyond 2 (quick) / 3 (thorough): the statement quantifies over any depth -- this is a bounded claim', 'programs outside the composed family; the construct-level properties C04..C20 carry the per-construct depth']
     c.assumptions.append('the reference semantics (ref/front.py, ref/sem.py) is an executable reading of docs/features.md and the property statements; where these are silent it answers "unspecified" and the case is skipped (counted as oracle_silent)')
     c.run_family('compose', ts, ('exit', 'stdout', 'stderr-empty', 'panic', 'hang'), compose.role, par_templates=8, par_paths=2)
+    rs = randprog.templates(tier, seed)
+    c.bounds['random_programs'] = '%d generated programs of 8-20 statements over the whole feature set (kind-tracking grammar, VERIF_SEED), integer / boolean leaves symbolic' % len(rs)
+    c.run_family('random-programs', rs, ('exit', 'stdout', 'stderr-empty', 'panic', 'hang'), randprog.role, par_templates=8, par_paths=2, timeout=300)
     return c.finish()
